@@ -271,14 +271,16 @@ class MemoryTimeline(MutableTimeline[Interval]):
     @override
     def _remove_interval(self, interval: Interval) -> list[WriteResult]:
         """Remove a single interval from the static list."""
-        recurring_id = getattr(interval, "recurring_event_id", None)
-        if recurring_id:
-            return self._remove_recurring_instance(interval)
-
+        # A stored interval is removed as such, whatever fields it carries: an
+        # event copied from another calendar may have a recurring_event_id
+        # without being an occurrence of a pattern stored here
         try:
             self._static_intervals.remove(interval)
             return [WriteResult(success=True, event=interval, error=None)]
         except ValueError:
+            recurring_id = getattr(interval, "recurring_event_id", None)
+            if recurring_id:
+                return self._remove_recurring_instance(interval)
             return [
                 WriteResult(
                     success=False,
